@@ -516,6 +516,21 @@ def last_in(st):
     return st.notes["in"][-1] if st.notes.get("in") else (None, None)
 
 
+def base_case(res, st, k, done, cond_fn, what, onm=None):
+    """Base case of a loop-cut induction: the state in which the k-th loop header of the path is first reached (before it
+    is replaced by the arbitrary loop state) must satisfy `cond_fn(arrival)`, under the path condition up to that point.
+    Decided once per distinct arrival (paths share their prefix)."""
+    arr = st.notes.get("arrivals", ())
+    if len(arr) <= k:
+        return
+    bb, a = arr[k]
+    if id(a) in done:
+        return
+    done.add(id(a))
+    cond = cond_fn(a)
+    res.must_be_unsat(list(st.pc[:a["pc_len"]]) + [z3.Not(cond)], what, onm)
+
+
 def cur_byte(rd, idx):
     b = rd.at(idx)
     return b, z3.UGE(idx, rd.len), idx == rd.err_at
@@ -540,6 +555,7 @@ def claim_decimal(cx, res, kf):
     eng, rd, fn, info, terms = run_scanner(cx, res, "parse_decimal", mk_args, ["parse_exponent", "f64_from_parts"],
                                            ["significand", "exponent", "at_least_one_digit"], extra_havoc=xh)
     loc = info["loc"]
+    base_done = set()
     seen = {"step": 0, "skip": 0, "exit_e": 0, "exit_f": 0, "nodigit": 0}
     for t in terms:
         st = t.state
@@ -562,6 +578,21 @@ def claim_decimal(cx, res, kf):
         d = z3.ZeroExt(120, b - bv(48, 8))
         wide = z3.ZeroExt(64, sig) * bv(10, 128) + d
         fits = z3.ULE(wide, bv(MAX64, 128))
+        # base cases: the digit loop starts from the arguments right after the '.', and the digit-skipping loop is entered
+        # exactly when the next digit does not fit, with the value (sig, exp) unchanged and that digit consumed
+        L = lambda a, n: a["locals"][loc[n]].e  # noqa
+        base_case(res, st, 0, base_done, lambda a: z3.And(L(a, "significand") == info["sig0"], L(a, "exponent") == info["exp0"],
+                                                         z3.Not(L(a, "at_least_one_digit")), a["idx"] == info["idx0"] + 1),
+                  "the fraction loop does not start from the integer part's (significand, exponent) right after the `.`")
+        if len(st.notes["in"]) >= 2:
+            r1 = st.notes["in"][0][1]
+            i1 = r1["idx"]
+            b1, eof1, io1 = cur_byte(rd, i1)
+            wide1 = z3.ZeroExt(64, r1["significand"].e) * bv(10, 128) + z3.ZeroExt(120, b1 - bv(48, 8))
+            base_case(res, st, 1, base_done, lambda a: z3.And(z3.Not(io1), z3.Not(eof1), is_dec_digit(b1), z3.Not(z3.ULE(wide1, bv(MAX64, 128))),
+                                                             L(a, "significand") == r1["significand"].e, L(a, "exponent") == r1["exponent"].e,
+                                                             a["idx"] == i1 + 1),
+                      "the digit that no longer fits is not dropped with (significand, exponent) unchanged (the value would be scaled wrongly)")
         fr = st.frames[-1] if st.frames else None
         if t.kind == "LOOP_BACK":
             sig2, ex2, aod2 = fr.locals[loc["significand"]].e, fr.locals[loc["exponent"]].e, fr.locals[loc["at_least_one_digit"]].e
